@@ -118,6 +118,7 @@ type Edge struct {
 type BlockSpec struct {
 	Edges []Edge
 	Raw   bool // raw leaf (codec 0x55)
+	Pad   int  `json:",omitempty"` // extra field "p": a list of Pad integers (a wide block: many nodes, no links)
 }
 
 type Shape struct {
@@ -133,6 +134,9 @@ func (s Shape) String() string {
 		fmt.Fprintf(&sb, " %d", i)
 		if b.Raw {
 			sb.WriteString("(raw)")
+		}
+		if b.Pad > 0 {
+			fmt.Fprintf(&sb, "(pad%d)", b.Pad)
 		}
 		if len(b.Edges) > 0 {
 			sb.WriteString("->")
@@ -177,8 +181,15 @@ func Build(s Shape, salt string) *DAG {
 			nd := basicnode.NewBytes([]byte(fmt.Sprintf("raw-leaf-%d-%s", i, salt)))
 			l, err = ls.Store(ipld.LinkContext{}, rawProto, nd)
 		} else {
-			nd := fluent.MustBuildMap(basicnode.Prototype.Map, int64(len(b.Edges)+1), func(ma fluent.MapAssembler) {
+			nd := fluent.MustBuildMap(basicnode.Prototype.Map, int64(len(b.Edges)+2), func(ma fluent.MapAssembler) {
 				ma.AssembleEntry("v").AssignString(fmt.Sprintf("%d%s", i, salt))
+				if b.Pad > 0 {
+					ma.AssembleEntry("p").CreateList(int64(b.Pad), func(la fluent.ListAssembler) {
+						for k := 0; k < b.Pad; k++ {
+							la.AssembleValue().AssignInt(int64(k))
+						}
+					})
+				}
 				for k, e := range b.Edges {
 					name := fmt.Sprintf("e%d", k)
 					if s.Reverse {
